@@ -62,6 +62,140 @@ Theorem C14_gen_fileName_not_temp : forall (sum : list Z -> list Z) (hexenc : li
 Proof. exact gen_fileName_not_temp. Qed.
 Print Assumptions C14_gen_fileName_not_temp.
 
+(* ---------- the writer: internal/file.WriteFile ----------
+   The five os calls of WriteFile are EFFECT oracles: GoLite threads an abstract [world] through them in
+   Go's evaluation order (os.CreateTemp, File.Write, File.Close, os.Rename, os.Remove : world -> args ->
+   world * results; File.Name is pure; the verif hook calls are dropped).  The deferred clean-up is run
+   at every return after its registration.  All theorems quantify over the world type, the type of
+   file handles and the six functions: nothing is assumed about the operating system. *)
+
+(* WriteFile IS the writer program of C14_Writer.v (create temp in [dir] with the generated pattern;
+   write; close; rename(temp, path); after the first failure past the creation: Close, Remove(temp)):
+   same world afterwards, nil exactly when the program succeeds *)
+Theorem C14_gen_WriteFile_equiv : forall F W create write close name rename remove w dir path content,
+  (fst (gen_file_WriteFile F W create write close name rename remove w dir path content),
+   is_none (snd (gen_file_WriteFile F W create write close name rename remove w dir path content)))
+  = writer_prog W F (fun w d p => nest3 (create w d p)) (fun w f b => nest3 (write w f b))
+      close name rename remove w dir path content.
+Proof. exact gen_WriteFile_equiv. Qed.
+Print Assumptions C14_gen_WriteFile_equiv.
+
+(* the ORDER of the file-system steps.  World := the history of calls with their answers; the
+   operating system is any [behaviour]: each answer an arbitrary function of the whole history so far
+   and of the arguments.  Whatever it answers, the calls WriteFile makes are one of the five sequences
+   of [writer_run]: Create(dir, pattern) failed | Create, Write(temp) failed, Close, Remove(temp) |
+   Create, Write, Close failed, Close, Remove(temp) | Create, Write, Close, Rename(temp, path) failed,
+   Close, Remove(temp) | Create, Write, Close, Rename(temp, path) - and nil is returned in the last only *)
+Theorem C14_gen_WriteFile_steps : forall F name (B : behaviour F) dir path content,
+  writer_run F name dir path content
+    (fst (gen_write_logged F name B dir path content))
+    (is_none (snd (gen_write_logged F name B dir path content))).
+Proof. exact gen_WriteFile_steps. Qed.
+Print Assumptions C14_gen_WriteFile_steps.
+
+(* bytes are only ever written through the handle CreateTemp returned for [dir] and the pattern -
+   there is no call that opens or writes [path] *)
+Theorem C14_gen_WriteFile_writes_only_temp : forall F name (B : behaviour F) dir path content,
+  writes_only_temp F dir (fst (gen_write_logged F name B dir path content)).
+Proof. exact gen_WriteFile_writes_only_temp. Qed.
+Print Assumptions C14_gen_WriteFile_writes_only_temp.
+
+(* nil: exactly Create, Write, Close, Rename(temp, path), each answered nil *)
+Theorem C14_gen_WriteFile_success_shape : forall F name (B : behaviour F) dir path content,
+  snd (gen_write_logged F name B dir path content) = None ->
+  exists f n, fst (gen_write_logged F name B dir path content) =
+    [CCreate dir gen_temp_file_pattern (f, None); CWrite f content (n, None); CClose f None;
+     CRename (name f) path None].
+Proof. exact gen_WriteFile_success_shape. Qed.
+Print Assumptions C14_gen_WriteFile_success_shape.
+
+(* an error: either nothing was created, or the LAST call removes the temporary file *)
+Theorem C14_gen_WriteFile_failure_removes : forall F name (B : behaviour F) dir path content,
+  snd (gen_write_logged F name B dir path content) <> None ->
+  let log := fst (gen_write_logged F name B dir path content) in
+  (exists f e, log = [CCreate dir gen_temp_file_pattern (f, Some e)]) \/
+  (exists f r0 mid rr, log = CCreate dir gen_temp_file_pattern (f, r0) :: mid ++ [CRemove (name f) rr])%list.
+Proof. exact gen_WriteFile_failure_removes. Qed.
+Print Assumptions C14_gen_WriteFile_failure_removes.
+
+(* the tie to the step alphabet of C14_Model.v, Part 1.  The calls are read as events of writer [wid]
+   ([events]: Create=nil -> ECreate, Write=(_,nil) -> EWrite of everything, Write=(n,error) -> EWrite n,
+   Close=nil -> EClose, Rename=nil -> ERename; in the clean-up Remove=nil -> EFail, Remove=error ->
+   ECrash).  From ANY state of the directory semantics in which the id is unused, and for any
+   operating system whose successful CreateTemp(dir, pattern) returns a new name of the temporary form
+   (O_EXCL + C14_gen_created_name_is_temp), the run is an ENABLED trace of [step], and it ends with the
+   key denoting the complete content exactly when WriteFile returns nil; otherwise the key is untouched
+   and the writer is PFailed (temporary name gone) or PDead (Remove failed) - the model's writer, which
+   all theorems of C14_Property.v quantify over.  [nm] maps a path to its directory entry. *)
+Theorem C14_gen_WriteFile_runs_model : forall F name sha nm (B : behaviour F) dir path content wid u s,
+  getN wid (s_w s) = None -> getN wid (s_ino s) = None ->
+  (forall f, b_create F B [] dir gen_temp_file_pattern = (f, None) ->
+      is_temp (nm (name f)) = true /\ getS (nm (name f)) (s_dir s) = None) ->
+  nm path = key sha u ->
+  let r := gen_write_logged F name B dir path content in
+  exists s', exec sha s (events F name wid u (data_of_bytes content) nm false (fst r)) = Some s' /\
+             end_state sha s s' wid u (data_of_bytes content) (is_none (snd r)).
+Proof. exact gen_WriteFile_runs_model. Qed.
+Print Assumptions C14_gen_WriteFile_runs_model.
+
+(* ---------- crl.FileCache.Set ---------- *)
+
+(* Set never panics.  Without bytes to store (nil bundle, nil base CRL, json.Marshal failed) the world
+   is untouched and an error returned; otherwise Set is WriteFile(root, <root>/<fileName url>, bytes):
+   the temporary file is created in the cache root itself, the destination is the key of the URL *)
+Theorem C14_gen_Set_equiv :
+  forall sum hexenc F W create write close name rename remove join marshal w c url bundle,
+  exists r, gen_crl_FileCache_Set sum hexenc F W create write close name rename remove join marshal w c url bundle
+            = Some r /\
+    match set_bytes marshal bundle with
+    | None => r = (w, snd r) /\ is_none (snd r) = false
+    | Some bytes =>
+        let g := gen_file_WriteFile F W create write close name rename remove w (FileCache_root c)
+                   (set_path sum hexenc join c url) bytes in
+        (fst r, is_none (snd r)) = (fst g, is_none (snd g))
+    end.
+Proof. exact gen_Set_equiv. Qed.
+Print Assumptions C14_gen_Set_equiv.
+
+(* end to end: every run of the generated Set against any operating system (contract on CreateTemp as
+   above, hex = the model's [hex], the paths <root>/<k> denote the entries k of the model's directory) is
+   an enabled trace of ONE writer of C14_Model for this URL, storing [stored_bytes bundle] under
+   key (sha256) url exactly when Set returns nil *)
+Theorem C14_gen_Set_runs_model :
+  forall sum hexenc F name join marshal nm (B : behaviour F) c url bundle wid s,
+  (forall l, hexenc l = hex (map Z.to_N l)) ->
+  (forall k, nm (join [FileCache_root c; k]) = k) ->
+  getN wid (s_w s) = None -> getN wid (s_ino s) = None ->
+  (forall f, b_create F B [] (FileCache_root c) gen_temp_file_pattern = (f, None) ->
+      is_temp (nm (name f)) = true /\ getS (nm (name f)) (s_dir s) = None) ->
+  exists r, gen_set_logged sum hexenc F name join marshal B c url bundle = Some r /\
+  exists s', exec (sha_of_sum sum) s
+               (events F name wid url (data_of_bytes (stored_bytes marshal bundle)) nm false (fst r)) = Some s' /\
+             end_state (sha_of_sum sum) s s' wid url (data_of_bytes (stored_bytes marshal bundle)) (is_none (snd r)).
+Proof. exact gen_Set_runs_model. Qed.
+Print Assumptions C14_gen_Set_runs_model.
+
+(* transport of the property theorems: the events of a generated Set extend any trace the theorems of
+   C14_Property.v quantify over (safe, executable from [init]) to another such trace - so C14_inv, C14_read,
+   C14_read_url, C14_fresh, C14_temp_never_read ... hold of every state reached through runs of the
+   code's own Set, interleaved with anything else; and after a nil the key of the URL denotes the
+   writer's inode holding exactly the stored bytes *)
+Theorem C14_gen_Set_extends_trace :
+  forall sum hexenc F name join marshal nm (B : behaviour F) c url bundle wid tr s,
+  (forall l, hexenc l = hex (map Z.to_N l)) ->
+  (forall k, nm (join [FileCache_root c; k]) = k) ->
+  forallb safe tr = true -> exec (sha_of_sum sum) init tr = Some s ->
+  getN wid (s_w s) = None -> getN wid (s_ino s) = None ->
+  (forall f, b_create F B [] (FileCache_root c) gen_temp_file_pattern = (f, None) ->
+      is_temp (nm (name f)) = true /\ getS (nm (name f)) (s_dir s) = None) ->
+  exists r s', gen_set_logged sum hexenc F name join marshal B c url bundle = Some r /\
+    let tr' := (tr ++ events F name wid url (data_of_bytes (stored_bytes marshal bundle)) nm false (fst r))%list in
+    forallb safe tr' = true /\ exec (sha_of_sum sum) init tr' = Some s' /\
+    (snd r = None -> getS (key (sha_of_sum sum) url) (s_dir s') = Some wid /\
+                     getN wid (s_ino s') = Some (data_of_bytes (stored_bytes marshal bundle))).
+Proof. exact gen_Set_extends_trace. Qed.
+Print Assumptions C14_gen_Set_extends_trace.
+
 (* ---------- the reader: crl.FileCache.Get ----------
    (translated with NilIsEmpty: the test `content.DeltaCRL != nil` of crl.go:104 is read as
    len != 0; the two theorems below concern the access to the directory, which precedes it, and hold
